@@ -606,6 +606,15 @@ func (w *World) RunLedger(o LedgerOpts) {
 				}
 				d = d.Neg()
 			}
+			// the only caller of UpdateNSTBalance (the oracle's balance-change report) derives the amount from at
+			// most 256 validators x 32 tokens: larger magnitudes cannot reach this entry point
+			if lim := sdkmath.NewIntWithDecimal(32*256, int(nst.Decimals)); d.Abs().GT(lim) {
+				if d.IsNegative() {
+					d = lim.Neg()
+				} else {
+					d = lim
+				}
+			}
 			w.NSTUpdateStep(s, nst, d)
 		case wt(wParam): // governance changes the number of unbonding epochs
 			p := w.Last.Dog.Params
